@@ -43,8 +43,21 @@ Need(o, t) ==
 Justified(t) == \E o \in (IF t.n[2] = 0 THEN {1} ELSE {1, 2}) :
                    /\ t.pulls[1] <= Need(o, t)[1] + LookAhead
                    /\ t.pulls[2] <= Need(o, t)[2] + LookAhead
+\* ---- queries with a universal condition for_all(y, c) over the selected variable x.  t.fa[i] = how many elements of y's
+\* domain deciding the for_all for the i-th x needs: 0 = not evaluated for it (short-circuited by the surrounding connective),
+\* j = the first refuting y, n2 = it holds.  Two demand-driven strategies are accepted: x outer (the for_all is decided per
+\* tried x and stops at the first counter-example), or y outer (candidate x's intersected per y, stopping when none is left).
+HasFA(t) == "fa" \in DOMAIN t
+MaxOf(S) == IF S = {} THEN 0 ELSE CHOOSE m \in S : \A x \in S : x <= m
+SatX(t) == { t.sat[i][1] : i \in DOMAIN t.sat }
+KthX(t) == IF Cardinality(SatX(t)) < t.k THEN t.n[1]
+           ELSE CHOOSE x \in SatX(t) : Cardinality({ q \in SatX(t) : q < x }) = t.k - 1
+NeedFA(o, t) == IF o = 1 THEN <<KthX(t), MaxOf({ t.fa[i] : i \in 1..Min(t.n[1], KthX(t) + LookAhead) })>>
+                ELSE <<t.n[1], MaxOf({ t.fa[i] : i \in 1..t.n[1] })>>
+JustifiedFA(t) == \E o \in {1, 2} : t.pulls[1] <= NeedFA(o, t)[1] + LookAhead /\ t.pulls[2] <= NeedFA(o, t)[2] + LookAhead
 Verdict(t) == IF t.build > 0 THEN "prop:C10 build phase touched user data"
-              ELSE IF ~Justified(t) THEN "prop:C10 eager: no loop order justifies the pulled prefixes"
+              ELSE IF HasFA(t) /\ ~JustifiedFA(t) THEN "prop:C10 eager: the universally quantified domain was consumed beyond the first counter-example"
+              ELSE IF ~HasFA(t) /\ ~Justified(t) THEN "prop:C10 eager: no loop order justifies the pulled prefixes"
               ELSE "accepted"
 Init == tid \in 1..Len(Obs) /\ verdict = Verdict(Obs[tid])
 Next == FALSE /\ UNCHANGED <<tid, verdict>>
